@@ -165,12 +165,19 @@ class Expr:
         return tuple(k if k in ('attr', 'item', 'call') else p[0] if k == 'bin' else p for k, p in self.steps)
 
 
+_BUILT_SUBS = {}     # id(Sub node) -> built object, for the duration of one build_t(): a Sub node used by several steps of
+                     # one expression is ONE T object there (and is evaluated at every step that uses it)
+
+
 def build_arg(a):
     if isinstance(a, Lit):
         return a.v
     if isinstance(a, Sub):
-        t = build_t(a.expr)
-        return Spec(t) if a.wrap else t
+        if id(a) in _BUILT_SUBS:
+            return _BUILT_SUBS[id(a)]
+        t = build_t(a.expr, nested=True)
+        _BUILT_SUBS[id(a)] = Spec(t) if a.wrap else t
+        return _BUILT_SUBS[id(a)]
     if isinstance(a, Cont):
         if a.typ is dict:
             return {k: build_arg(v) for k, v in a.parts}
@@ -178,7 +185,9 @@ def build_arg(a):
     raise AssertionError(a)
 
 
-def build_t(e):
+def build_t(e, nested=False):
+    if not nested:
+        _BUILT_SUBS.clear()
     t = getattr(T, e.attr)
     for kind, p in e.steps:
         if kind == 'attr':
@@ -259,11 +268,19 @@ def ref_eval(e, target, skip=None):
 # ---------------------------------------------------------------------------
 # generation
 
+_EARLIER_SUBS = []
+
+
 def gen_arg_for(rng, kind, cur, depth, tgt):
     """an argument that has a fair chance of being valid for cur"""
     r = rng.random()
     if depth < 2 and r < 0.22:
-        return gen_sub(rng, depth + 1, tgt, wrap=rng.random() < 0.3)
+        if _EARLIER_SUBS and rng.random() < 0.35:
+            return rng.choice(_EARLIER_SUBS)          # the very same nested T as an earlier step of this expression
+        sub = gen_sub(rng, depth + 1, tgt, wrap=rng.random() < 0.3)
+        if depth == 0:
+            _EARLIER_SUBS.append(sub)
+        return sub
     if kind == 'item':
         if isinstance(cur, (list, tuple, str)):
             if rng.random() < 0.3:
@@ -280,7 +297,7 @@ def gen_arg_for(rng, kind, cur, depth, tgt):
         if type(cur) in (list, tuple) and rng.random() < 0.6:
             parts = [Lit(rng.randint(0, 9)) if rng.random() < 0.6 else gen_sub(rng, 2, tgt) for _ in range(rng.randint(0, 2))]
             return Cont(type(cur), parts)
-        return Lit(type(cur)() if rng.random() < 0.5 else rng.choice(['s', [8], (8,)]))
+        return Lit(type(cur)() if rng.random() < 0.5 and type(cur) in (list, tuple, str) else rng.choice(['s', [8], (8,), _Pt(8, 9), _SL]))
     if isinstance(cur, (set, frozenset)) and rng.random() < 0.7:
         return Lit(rng.choice([{1, 9}, frozenset([2]), set()]))
     return Lit(rng.choice([0, 1, 2, 3, -2, 7, 0.5, 2.0, True, Fraction(1, 3), 'x', None, [1]]))
@@ -312,7 +329,23 @@ def gen_call_arg(rng, depth, tgt):
     if r < 0.4:
         return Cont(rng.choice([list, tuple, dict]), [('x', gen_sub(rng, 2, tgt)), ('y', Lit(1))]) if False else \
             Cont(list, [gen_sub(rng, 2, tgt), Lit('lit')])
+    if r < 0.5:
+        # instances of container SUBCLASSES are literals: passed through as they are, not rebuilt
+        return Lit(rng.choice([_Pt(1, 2), _Pt(_Pt(0, 0), 'n'), _DD, _SL]))
     return Lit(rng.choice([0, 1, 2, 'a.b', 'n', len, None, 3.5, ('t', 1)]))
+
+
+import collections as _collections
+_Pt = _collections.namedtuple('_Pt', 'x y')
+_DD = _collections.defaultdict(list, {'k': [1]})
+
+
+class _StatefulList(list):
+    pass
+
+
+_SL = _StatefulList([1, 2])
+_SL.label = 'tagged'
 
 
 def candidate_step(rng, cur, depth, tgt):
@@ -376,6 +409,7 @@ def too_big(v):
 def gen_expr(rng, build, want_fail):
     """adaptive generation against a twin target; returns Expr"""
     twin = build()
+    del _EARLIER_SUBS[:]
     e = Expr(rng.choice(Tgt.ATTRS))
     n = rng.randint(1, 6)
     failed = False
